@@ -2,27 +2,32 @@
 (M) Mux.tla (registration, net/url parsing of the target, middleware chain, routing, Vars/ResolvePattern
     probes before routing / in the handler / after routing, 404 responder) is model-checked; every named
     deviation must produce a counterexample (vacuity guard).
-(G) every case TLC enumerates (three families: value strings x pattern shapes, pattern sets x requests,
-    Use/Handle orderings) is executed on the real goahttp.NewMuxer() by harness/drivers/mux and the
+(G) every case TLC enumerates (four families: value strings x pattern shapes, pattern sets x requests,
+    Use/Handle orderings, registration histories = two or three Handle calls that repeat / rename / move to the
+    other method / add or drop the trailing slash of an earlier one) is executed on the real goahttp.NewMuxer() by harness/drivers/mux and the
     observation must equal one of the model's predictions for that case (the model is nondeterministic
     only where the statement leaves a choice: which of several matching patterns wins, empty {name}
     segments, 404 or 405 for a path that matches under another method).
-(J) random larger cases (<= 6 patterns, values up to 6 characters, <= 3 middlewares, late Use) executed by
+(J) random larger cases (<= 6 Handle calls, a third of them derived from an earlier call: repeated, wildcards
+    renamed, other method, trailing slash toggled; values up to 6 characters, <= 3 middlewares, late Use) executed by
     the real code are validated as one batch trace against Trace_Mux.tla."""
 import json, os, urllib.parse
 from vlib import core
 
 DRIVER = "drivers/mux"
 DEVIATIONS = ["mux.double_unescape", "mux.probe_pollutes_context", "mux.preroute_matches_decoded_path",
-              "mux.resolve_trims_trailing_slash"]
+              "mux.resolve_trims_trailing_slash", "mux.rereg_keeps_first_wildcard_name"]
 # bounds on which TLC shows a counterexample for each deviation quickly
 DEV_BOUNDS = {   # single pattern /x/{id} (or /z/) behind one probing middleware, the small value set
     "mux.double_unescape": {"Profile": '"dispatch"', "MaxPats": 1, "Shapes": "{3}"},
     "mux.probe_pollutes_context": {"Profile": '"dispatch"', "MaxPats": 1, "Shapes": "{3}"},
     "mux.preroute_matches_decoded_path": {"Profile": '"dispatch"', "MaxPats": 1, "Shapes": "{3}"},
     "mux.resolve_trims_trailing_slash": {"Profile": '"dispatch"', "MaxPats": 1, "Shapes": "{12}"},
+    # GET /x/{*rest} then GET /x/{*tail} (registration histories)
+    "mux.rereg_keeps_first_wildcard_name": {"Profile": '"history"', "Shapes": "{4,14,19}"},
 }
 ALL_SHAPES = "{1,2,3,4,5,6,7,8,9,10,11,12,13,14}"
+HISTORY_SHAPES = "{1,3,4,6,7,11,12,13,14,15,16,17,18,19,20,21}"     # every cluster of related patterns of Mux.tla
 UNRESERVED = {"x", "z", "4", "1"}
 
 
@@ -51,7 +56,7 @@ def has_pct_hex(vals):
     return False
 
 
-def pattern_class(case, hid):
+def pattern_class0(case, hid):
     for o in case["plan"]:
         if o["op"] == "handle" and o["id"] == hid:
             segs = o["segs"]
@@ -63,6 +68,21 @@ def pattern_class(case, hid):
                 return "trailing-slash"
             return "var" if any(s["k"] == "var" for s in segs) else "literal"
     return "none"
+
+
+def shape_of(o):
+    return (o["method"], tuple("{}" if g["k"] == "var" else "*" if g["k"] == "wild" else "".join(g["v"]) for g in o["segs"]))
+
+
+def pattern_class(case, hid):
+    """Class of the pattern of Handle call `hid`; '+replaced-route' when the registration history has an earlier
+    call for the same method and the same route (pattern with the wildcard names erased)."""
+    c = pattern_class0(case, hid)
+    hs = [o for o in case["plan"] if o["op"] == "handle"]
+    for i, o in enumerate(hs):
+        if o["id"] == hid and any(shape_of(p) == shape_of(o) for p in hs[:i] + hs[i + 1:]):
+            return c + "+replaced-route"
+    return c
 
 
 def classify(case, pred, obs):
@@ -88,7 +108,8 @@ def classify(case, pred, obs):
         q = oo["probes"][i]
         site = {"pre": "before-routing", "h": "handler", "post": "after-routing"}.get(p["at"][0], "?")
         if p["vars"] != q["vars"]:
-            return ("C16/vars/%s/%s/%s" % (site, raw, "percent-hex" if has_pct_hex(case["req"]["src"]["vals"]) else "other"),
+            rr = "+replaced-route" if pattern_class(case, po["reached"]).endswith("+replaced-route") else ""
+            return ("C16/vars/%s/%s/%s" % (site, raw, ("percent-hex" if has_pct_hex(case["req"]["src"]["vals"]) else "other") + rr),
                     "Vars %s: %s, model %s" % (site, q["vars"], p["vars"]))
         if p["res"] != q["res"]:
             return ("C16/resolve/%s/%s/%s" % (site, raw, pattern_class(case, po["reached"])),
@@ -296,7 +317,7 @@ def run(ctx):
         "a {name} segment is never given an empty value by the generator; whether an empty segment matches {name} is left open (both readings accepted)",
         "a path that matches only under another method may be answered 404 (well-formed) or 405 (chi's default)",
         "literal pattern segments are sent unescaped; only wildcard values are escaped (url.PathEscape, full escaping, or slashes kept)",
-        "no two handlers are registered for the same method and the same route with different wildcard names",
+        "a Handle call for a method and a pattern that differs from an earlier call's only in its wildcard names replaces that call (handler, names, reported pattern): the last registration wins",
         "Use after the first Handle is refused by chi with a panic and leaves the muxer unchanged (modelled as what exists)",
     ]
     # (M) vacuity guard: each named deviation makes an invariant fail
@@ -308,7 +329,8 @@ def run(ctx):
     nontriv, mismatches = set(), []
     families = [("values", {"Profile": '"values"', "MaxLen": 3, "Shapes": "{3,4,5,6,7}" if quick else ALL_SHAPES}),
                 ("dispatch", {"Profile": '"dispatch"', "MaxPats": 2}),
-                ("mw", {"Profile": '"mw"'})]
+                ("mw", {"Profile": '"mw"'}),
+                ("history", {"Profile": '"history"', "Shapes": HISTORY_SHAPES})]
     if not quick:
         families += [("values-len4", {"Profile": '"values"', "MaxLen": 4, "Shapes": "{3,4}"}),
                      ("dispatch-3", {"Profile": '"dispatch"', "MaxPats": 3, "Shapes": "{1,3,4,5,6,8,9,12,14}"})]
